@@ -81,6 +81,14 @@ package dns
 
 // SVCB parameter lists are equal only if, pairwise after sorting, the keys are equal and the packed values
 // are equal: the values of a pair are looked at only after its keys have been compared
+// both parameter lists are put in key order before they are compared pairwise: each sort orders its own list by
+// that list's keys
+//@ func areSVCBPairArraysEqual$1 [C20]
+//@   opt no-safety
+//@   callsite "Key" own: recv == a[i] || recv == a[j]
+//@ func areSVCBPairArraysEqual$2 [C20]
+//@   opt no-safety
+//@   callsite "Key" own: recv == b[i] || recv == b[j]
 //@ func areSVCBPairArraysEqual [C20]
 //@   opt no-safety
 //@   callsite "pack" keyfirst: called("Key")
